@@ -69,6 +69,7 @@
 	global %1_dispatched
 	global %1_mbinit
 %endif
+	align 8
 	%1_dispatched:
 		mbin_def_ptr	%1_mbinit
 
